@@ -105,6 +105,17 @@ CHECKS = {
   note="Trusted: Coq kernel, vm_compute, graph extraction harness. The walks are modelled by their recursion skeleton. Time is observed, steps are proved.",
   technique="Rocq proof (termination by a pigeonhole measure on duplicate-free visited lists; forest invariant of the scope machine) + graph-extraction differential + cycle catalogue",
   design="4/C20"),
+ "C05": dict(
+  text="Coq theorems (C05/Props.v) about a branch-for-branch transcription of get_use_tree/find_in_scope: for ALL programs, whatever is returned "
+       "through USE association is a public child of the used module (a PRIVATE entity is never the answer via USE); a local declaration wins; a unit "
+       "without USE gets exactly its host's answer; `USE m[, ONLY: ..., local => remote]` of a module that uses nothing resolves as Fortran says. "
+       "The full statement is refuted on the faithful model by two vm_compute witnesses, which are replayed on the implementation on every run "
+       "(known findings). Re-export chains, shadowing depth and accessibility combinations are covered by the differential: the model and the "
+       "generator's Fortran ground truth against textDocument/definition on generated multi-file workspaces.",
+  note="Partial. Trusted: Coq kernel, vm_compute, generator ground truth. Fragment: variables, modules, a program with a contained procedure; no #GEN_INT, "
+       "INCLUDE, IMPORT, submodules, % chains. Known findings: C05:rename-lost-diamond, C05:private-reexport.",
+  technique="Rocq proof over a transcription of the resolution functions (accessibility invariant for all programs; fragment correctness; refutation witnesses) + differential with generated ground truth",
+  design="4/C05"),
 }
 NOT_YET = "not yet built in this round; see DESIGN.md section 8 (build order)"
 
